@@ -88,10 +88,16 @@ class Sym:
     def n(self):
         return self._n if self._n is not None else self.a
 
+    _nan = [0]
+
     @staticmethod
     def lift(x):
         if isinstance(x, Sym):
             return x
+        if isinstance(x, (float, np.floating)) and x != x:
+            # NaN (e.g. undefined DOF locations): an arbitrary real - a sound over-approximation of "garbage"
+            Sym._nan[0] += 1
+            return Sym(z3.Real('nan!%d' % Sym._nan[0]))
         c = _fr(x)
         return None if c is None else Sym(c=c)
 
